@@ -160,3 +160,42 @@ End Bisim.
 Arguments bisim_check {L1 L2} d1 d2 lab1 lab2 compat fuel.
 Arguments bisim_check_sound {L1 L2} d1 d2 lab1 lab2 compat fuel.
 Arguments related {L1 L2} lab1 lab2 compat p.
+
+(* ---- extensional identity of two transition tables (same next state for EVERY state and code point) ---- *)
+Section SameFunction.
+  Variable d1 d2 : dfa.
+
+  Definition from_states (d : dfa) : list N := map e_from (d_edges d).
+  Definition all_from : list N := nodup N.eq_dec (from_states d1 ++ from_states d2).
+  Definition sf_atoms : list N := nodup N.eq_dec (0 :: (d_bounds d1 ++ d_bounds d2)).
+
+  Definition ostate_eqb (a b : option N) : bool :=
+    match a, b with Some x, Some y => x =? y | None, None => true | _, _ => false end.
+
+  Definition same_function_check : bool :=
+    forallb (fun q => forallb (fun c => ostate_eqb (step d1 q c) (step d2 q c)) sf_atoms) all_from.
+
+  Lemma step_none_not_from d q c : ~ In q (from_states d) -> step d q c = None.
+  Proof.
+    intros H. unfold step. destruct (find (e_match q c) (d_edges d)) as [e|] eqn:E; [|reflexivity].
+    exfalso. apply find_some in E as [Hin Hm]. unfold e_match in Hm. apply andb_prop in Hm as [Hq _].
+    apply N.eqb_eq in Hq. apply H. unfold from_states. apply in_map_iff. exists e. auto.
+  Qed.
+
+  Theorem same_function_sound :
+    same_function_check = true -> forall q c, step d1 q c = step d2 q c.
+  Proof.
+    unfold same_function_check. intros H q c. rewrite forallb_forall in H.
+    destruct (in_dec N.eq_dec q all_from) as [Hin|Hnot].
+    - specialize (H q Hin). rewrite forallb_forall in H.
+      set (B := d_bounds d1 ++ d_bounds d2).
+      rewrite (step_rep d1 B q c) by (apply incl_appl, incl_refl).
+      rewrite (step_rep d2 B q c) by (apply incl_appr, incl_refl).
+      assert (Ha : In (rep B c) sf_atoms) by (apply nodup_In; apply rep_in).
+      specialize (H _ Ha). destruct (step d1 q (rep B c)), (step d2 q (rep B c)); simpl in H; try discriminate; auto.
+      apply N.eqb_eq in H. subst. reflexivity.
+    - assert (H1 : ~ In q (from_states d1)) by (intros X; apply Hnot; apply nodup_In; apply in_or_app; auto).
+      assert (H2 : ~ In q (from_states d2)) by (intros X; apply Hnot; apply nodup_In; apply in_or_app; auto).
+      rewrite (step_none_not_from d1 q c H1), (step_none_not_from d2 q c H2). reflexivity.
+  Qed.
+End SameFunction.
